@@ -100,14 +100,14 @@ def isOpenOrClose : Body → Bool
 
 /-- return of `flushValue` turned into a step result with done flag `d` -/
 def valueRet (s : St) (pre : List Bytes) (d : Bool) : Flush → EncOut St
-  | .ok ws => ⟨s, pre ++ ws, .plain d⟩
+  | .ok ws => ⟨s, pre ++ ws, .ck d⟩
   | .err => ⟨s, pre, .bad⟩
   | .panic => ⟨s, pre, .panic⟩
 
 def stepAny (_c : Cfg) (ff : Nat → Bytes) (s : St) (b : Body) : EncOut St :=
   match b with
-  | .mapOpen _ => ⟨push s .mapKey, [[123]], .plain false⟩
-  | .arrOpen _ => ⟨push s .arr, [[91]], .plain false⟩
+  | .mapOpen _ => ⟨push s .mapKey, [[123]], .ck false⟩
+  | .arrOpen _ => ⟨push s .arr, [[91]], .ck false⟩
   | .mapClose => ⟨s, [], .bad⟩
   | .arrClose => ⟨s, [], .bad⟩
   | v => valueRet s [] true (flushValue ff v)
@@ -117,29 +117,29 @@ def stepMapKey (c : Cfg) (s : St) (b : Body) : EncOut St :=
   | .mapClose =>
     match pop c s with
     | none => ⟨s, closeIndent c s ++ [[125]], .panic⟩
-    | some (s', ws, d) => ⟨s', closeIndent c s ++ [[125]] ++ ws, .plain d⟩
+    | some (s', ws, d) => ⟨s', closeIndent c s ++ [[125]] ++ ws, .ck d⟩
   | .str k =>
     ⟨{ s with current := .mapVal, some := true },
-     entrySep c s ++ emitString k ++ [[58]] ++ (if c.line.isSome then [[32]] else []), .plain false⟩
+     entrySep c s ++ emitString k ++ [[58]] ++ (if c.line.isSome then [[32]] else []), .ck false⟩
   | _ => ⟨s, [], .bad⟩
 
 def stepMapVal (_c : Cfg) (ff : Nat → Bytes) (s : St) (b : Body) : EncOut St :=
   match b with
-  | .mapOpen _ => ⟨push s .mapKey, [[123]], .plain false⟩
-  | .arrOpen _ => ⟨push s .arr, [[91]], .plain false⟩
+  | .mapOpen _ => ⟨push s .mapKey, [[123]], .ck false⟩
+  | .arrOpen _ => ⟨push s .arr, [[91]], .ck false⟩
   | .mapClose => ⟨s, [], .bad⟩
   | .arrClose => ⟨s, [], .bad⟩
   | v => valueRet { s with current := .mapKey } [] false (flushValue ff v)
 
 def stepArr (c : Cfg) (ff : Nat → Bytes) (s : St) (b : Body) : EncOut St :=
   match b with
-  | .mapOpen _ => ⟨push { s with some := true } .mapKey, entrySep c s ++ [[123]], .plain false⟩
-  | .arrOpen _ => ⟨push { s with some := true } .arr, entrySep c s ++ [[91]], .plain false⟩
+  | .mapOpen _ => ⟨push { s with some := true } .mapKey, entrySep c s ++ [[123]], .ck false⟩
+  | .arrOpen _ => ⟨push { s with some := true } .arr, entrySep c s ++ [[91]], .ck false⟩
   | .mapClose => ⟨s, [], .bad⟩
   | .arrClose =>
     match pop c s with
     | none => ⟨s, closeIndent c s ++ [[93]], .panic⟩
-    | some (s', ws, d) => ⟨s', closeIndent c s ++ [[93]] ++ ws, .plain d⟩
+    | some (s', ws, d) => ⟨s', closeIndent c s ++ [[93]] ++ ws, .ck d⟩
   | v => valueRet { s with some := true } (entrySep c s) false (flushValue ff v)
 
 /-- `Encoder.Step` -/
